@@ -310,7 +310,7 @@ theorem buildSeg_fields_names (v : Bool) (mode : Nat) (b : Batch) :
   have : ((fun (f : FieldM) => f.name) ∘ fun (p : Name × List (Bytes × List Entry)) =>
       ({ name := p.1,
          terms := (sortTerms p.2).map (fun t => (t.1, PostRep.general t.2)),
-         dv := if b.length ≠ 0 ∧ includeDocValues b p.1 then some (docTermMap b.length (sortTerms p.2)) else none,
+         dv := if b.length ≠ 0 ∧ includeDocValues b p.1 then some (addShapes b p.1 (docTermMap b.length (sortTerms p.2))) else none,
          thes := if b.length ≠ 0 ∧ hasThes b p.1 then some (buildThes b p.1) else none,
          vec := if v ∧ b.length ≠ 0 then buildVec b p.1 else none } : FieldM)) = Prod.fst := rfl
   rw [this]
